@@ -4,6 +4,6 @@ set -e
 cd "$(dirname "$0")"
 export CARGO_NET_OFFLINE=true
 PROPS=$(ls lean/Grenad/Props/*.lean | sed 's#lean/##; s#/#.#g; s#\.lean$##' | tr '\n' ' ')
-(cd lean && lake build Grenad gmodel $PROPS)
+(cd lean && lake build Grenad gmodel $PROPS Grenad.All)
 [ -f harness/Cargo.lock ] || cp /repo/Cargo.lock harness/Cargo.lock
 (cd harness && cargo build --offline && cargo build --offline --no-default-features --target-dir target-min)
